@@ -58,13 +58,9 @@ def parseOut (s : String) : Option OutCond :=
     | _ => none
   else none
 
-def parseReq (s : String) : Option (Request × HOutcome) := do
-  let (fields, out) ← match s.splitOn "/" with
-    | [hb, env, m, mt, sq, a, o] => some ([hb, env, m, mt, sq, a, o], OutCond.healthy)
-    | [hb, env, m, mt, sq, a, o, oc] => (parseOut oc).map fun c => ([hb, env, m, mt, sq, a, o], c)
-    | _ => none
+def parseReqCore (fields : List String) (out : OutCond) : Option (Request × HOutcome) :=
   match fields with
-  | [hb, env, m, mt, sq, a, o] =>
+  | [hb, env, m, mt, sq, a, o] => do
     let hb ← unhex hb
     let m ← unhex m
     let mt ← mt.toNat?
@@ -77,6 +73,35 @@ def parseReq (s : String) : Option (Request × HOutcome) := do
       | .panic p => .panic p
     pure (⟨hdr, env == "1", m, mt, sq, a, out⟩, o)
   | _ => none
+
+def parsePanic (s : String) : Option PanicPos :=
+  if s == "Ph" then some .handler else if s == "Pb" then some .mwBefore else if s == "Pa" then some .mwAfter
+  else if s == "Pr" then some .argsRead
+  else if s.startsWith "Pw" then (s.drop 2).toNat?.map PanicPos.resultWrite
+  else none
+
+/-- A request token of the modes in which user code may panic: output condition `P…` = where. -/
+def parseMuReq (s : String) : Option MuReq :=
+  match s.splitOn "/" with
+  | [hb, env, m, mt, sq, a, o, oc] =>
+    if oc.startsWith "P" then do
+      let p ← parsePanic oc
+      let (rq, ho) ← parseReqCore [hb, env, m, mt, sq, a, o] .healthy
+      pure ⟨rq, ho, some p⟩
+    else none
+  | _ => none
+
+def parseReq (s : String) : Option (Request × HOutcome) := do
+  let (fields, out) ← match s.splitOn "/" with
+    | [hb, env, m, mt, sq, a, o] => some ([hb, env, m, mt, sq, a, o], OutCond.healthy)
+    | [hb, env, m, mt, sq, a, o, oc] => (parseOut oc).map fun c => ([hb, env, m, mt, sq, a, o], c)
+    | _ => none
+  parseReqCore fields out
+
+def parseMuOrReq (t : String) : Option MuReq :=
+  match parseMuReq t with
+  | some m => some m
+  | none => (parseReq t).map fun x => (⟨x.1, x.2, none⟩ : MuReq)
 
 def showPayload : PayloadTag → String
   | .success v => "s:" ++ hexOf v
@@ -125,6 +150,17 @@ open Proc
 def stepProcessor (op : String) (args : List String) : Option String :=
   match op, args with
   | "prc", [_, _proto, mode, reqs] => do
+    if mode == "fault" || mode == "hsrv" then
+      -- ONE processor, one request after the other, user code may panic: through the mutex model
+      let ms ← if reqs == "." then some [] else (reqs.splitOn ",").mapM parseMuOrReq
+      let ends := serveAll .deferred stdProcMap false ms
+      let resOf : MuEnd → String
+        | .returned r => if mode == "hsrv" then (if r.2.isOk then "ok" else "err") else showRes (fun _ => "ok") r.2
+        | .panicked => "panic"
+        | .blocked => "blocked"
+      let outs := (ends.map fun e => match e with | .returned r => r.1 | _ => []).flatten
+      let o := if outs.isEmpty then "." else "|".intercalate (outs.map showReply)
+      return s!"res={",".intercalate (ends.map resOf)} out={o}"
     let rs ← if reqs == "." then some [] else (reqs.splitOn ",").mapM parseReq
     let conn := mode == "shared" || mode == "simple"
     let clean := rs.all fun r => (process stdProcMap r.1 r.2).2.isOk && positionKept stdProcMap r.1
